@@ -119,7 +119,7 @@ let run_case_with : 'h. ('h -> z -> hcall -> 'h * hresult) -> 'h -> ccase -> str
   if c.conns = 1 then begin
     (* single connection: the whole byte stream through the receive loop model *)
     let input = List.concat (List.filter_map (fun (_, op) ->
-      if op.[0] = 'f' || op.[0] = 'g' then Some (bytes_of_hex (String.sub op 1 (String.length op - 1))) else None) c.steps) in
+      if op.[0] = 'f' || op.[0] = 'g' || op.[0] = 'E' then Some (bytes_of_hex (String.sub op 1 (String.length op - 1))) else None) c.steps) in
     (* the TLS state the connection is served with: None = plain; Some chain = common names of the verified chain, leaf first *)
     let tls = (match c.tls with
       | spec :: _ when spec <> "" && spec <> "p" ->
@@ -150,6 +150,7 @@ let run_case_with : 'h. ('h -> z -> hcall -> 'h * hresult) -> 'h -> ccase -> str
       match op.[0] with
       | 'f' -> bufs.(i) <- bufs.(i) @ bytes_of_hex (String.sub op 1 (String.length op - 1)); drain i []
       | 'g' -> bufs.(i) <- bufs.(i) @ bytes_of_hex (String.sub op 1 (String.length op - 1)); []
+      | 'E' -> bufs.(i) <- bufs.(i) @ bytes_of_hex (String.sub op 1 (String.length op - 1)); ended.(i) <- true; finish i []
       | 'e' | 'r' | 'x' -> ended.(i) <- true; finish i []
       | _ -> []) c.steps in
     let ops = ops @ List.concat (List.init c.conns (fun i -> if ended.(i) then [] else finish i [])) in
